@@ -20,6 +20,37 @@ Definition c11_scope (i : cfg_input) : bool := in_scope i && negb (copy_of_pendi
 Definition oracle (i : cfg_input) (boot_ok : bool) (boot : list rres) (tr : list obs) : bool :=
   full_oracle i boot_ok boot tr.
 
+(* ------------------------------------------------------------------ announced values no type can read *)
+(* Tor may announce, for a numeric or boolean option, a value its declared type cannot represent
+   (control-spec lets a Port-typed option be "auto": `650-ORPort=auto`).  The property text does not
+   say what the view shows for THAT option; the reading judged here is the one the source commits to
+   ("still apply the other options of this event"): the option keeps its previous view until it is
+   named again, and every other option named by the same event reads as its NEW value.  [settle]
+   removes such items from the events of a history (an event left with no line at all is outside the
+   envelope, as every empty event is); verdicts are computed on the settled input, so
+   that scope, oracle and model all see the event without the unreadable line while the
+   implementation receives it. *)
+Definition unparsable_item (opts : list (bytes * kind)) (it : bytes * option bytes) : bool :=
+  match dfind_ci (fst it) opts, snd it with
+  | Some (_, k), Some v =>
+      match k with
+      | KBool | KBoolAuto | KInt | KFloat =>
+          negb (is_nil v) && match parse_scalar k v with None => true | Some _ => false end
+      | _ => false
+      end
+  | _, _ => false
+  end.
+
+Definition settle_op (opts : list (bytes * kind)) (o : op) : op :=
+  match o with
+  | OpEvent items => OpEvent (filter (fun it => negb (unparsable_item opts it)) items)
+  | _ => o
+  end.
+
+Definition settle (i : cfg_input) : cfg_input :=
+  {| i_table := i_table i; i_store := i_store i; i_defaults := i_defaults i; i_pre := i_pre i;
+     i_ops := map (settle_op (options (i_table i))) (i_ops i) |}.
+
 (* ------------------------------------------------------------------ finding classes *)
 (* F5 = C10-F3 (edit_while_detached), whose third clause needs an event: an in-place edit of a
    list option for which Tor announced a new value while a local change was pending.
